@@ -359,8 +359,11 @@ class Engine:
         # VV: _manual_emitter will use whichever scheduler invokes its on_next() (i.e. manualEmissions in emit_now)
         self._detailedState = reactivex.merge(
             self._clock_periodic.pipe(
-                # VV: The Clock periodic blindly echoes what's in stateDictionary at the moment of trigger
-                op.map(lambda x: self.stateDictionary)
+                # VV: The Clock periodic echoes what's in stateDictionary at the moment of trigger. It goes through
+                # emit_now() so that its snapshot is ordered with respect to the manual ones (a snapshot that the
+                # timer thread computes right before a restart must not be observed after the restart's snapshot)
+                op.do_action(on_next=lambda x: self.emit_now()),
+                op.filter(lambda x: False)
             ),
             # VV: The manual emitter produces a dictionary with the same format as self.stateDictionary
             self._manual_emitter,
